@@ -132,6 +132,13 @@ def check(ctx):
             progs.append((pr[0] + "/" + lang, pr[1], lang))
     for pr in c02.expr_programs(["stmt", "arg"] if quick else ["stmt", "init", "arg", "ret", "cond"]):
         progs.append((pr[0], pr[1], "C"))
+    # all nine languages: skeletons, the units written for the mod_ options and for the rarely consulted spacing options
+    from ..universe import langunits, skel
+    for name, lang, src in skel.all_skeletons():
+        progs.append(("skel:" + name, src, lang))
+    for lang in sorted(set(langunits.UNITS) | set(langunits.SP_UNITS)):
+        for n, src, _m in langunits.units(lang) + langunits.sp_units(lang):
+            progs.append((n, src, lang))
     nlay = 0
     for pid, src, lang in progs:
         lays = layouts(src)
